@@ -238,8 +238,8 @@ def bodyOf (r : Re) : Re :=
 
 /-- table obligation: both patterns are `^(?:…)$`, in the fragment where the matcher is complete -/
 theorem irrelevant_query_frames :
-    Framed IRRELEVANT_QUERY_RE (bodyOf IRRELEVANT_QUERY_RE) ∧
-    Framed IRRELEVANT_QUERY_AMP_RE (bodyOf IRRELEVANT_QUERY_AMP_RE) ∧
+    FramedAlt IRRELEVANT_QUERY_RE (bodyOf IRRELEVANT_QUERY_RE) ∧
+    FramedAlt IRRELEVANT_QUERY_AMP_RE (bodyOf IRRELEVANT_QUERY_AMP_RE) ∧
     noNullRep IRRELEVANT_QUERY_RE = true ∧ noNullRep IRRELEVANT_QUERY_AMP_RE = true := by
   decide +kernel
 
@@ -308,7 +308,7 @@ theorem strips_campaign_key (amp : Bool) (qf : QueryItemFilter) (df : Option (Li
   obtain ⟨f1, f2, n1, n2⟩ := irrelevant_query_frames
   obtain ⟨h1, h2⟩ := irrelevant_families_in_pattern.1 pre hpre
   rw [hk]
-  have key : ∀ r, Framed r (bodyOf r) → noNullRep r = true →
+  have key : ∀ r, FramedAlt r (bodyOf r) → noNullRep r = true →
       (alts (bodyOf r)).any (isPrefixFamily pre.toList) = true →
       Re.pyMatch r (pre.toList ++ rest) = true := by
     intro r hf hn ha
